@@ -2,17 +2,21 @@
 
 package tls
 
-func verifOutgoing(c *Conn, data []byte) []byte                              { return data }
-func verifSuite13(hs *serverHandshakeStateTLS13)                             {}
-func verifGroup13(hs *serverHandshakeStateTLS13, g CurveID) CurveID          { return g }
-func verifALPN(c *Conn, p string) string                                     { return p }
-func verifHRR(hs *serverHandshakeStateTLS13, hrr *serverHelloMsg)            {}
-func verifServerVersions(c *Conn, ch *clientHelloMsg, v []uint16) []uint16   { return v }
-func verifCanary(hs *serverHandshakeState)                                   {}
-func verifPreClientFlight(hs *serverHandshakeStateTLS13) error               { return nil }
-func verifEmit(c *Conn, ev string, data []byte)                              {}
-func verifSuite12(hs *serverHandshakeState, s *cipherSuite) *cipherSuite           { return s }
-func verifGroup12(config *Config, g CurveID) CurveID                           { return g }
-func verifECDHPart(hs *serverHandshakeStateTLS13, g CurveID, data []byte) (CurveID, []byte) { return g, data }
+func verifOutgoing(c *Conn, data []byte) []byte                            { return data }
+func verifSuite13(hs *serverHandshakeStateTLS13)                           {}
+func verifGroup13(hs *serverHandshakeStateTLS13, g CurveID) CurveID        { return g }
+func verifALPN(c *Conn, p string) string                                   { return p }
+func verifHRR(hs *serverHandshakeStateTLS13, hrr *serverHelloMsg)          {}
+func verifServerVersions(c *Conn, ch *clientHelloMsg, v []uint16) []uint16 { return v }
+func verifCanary(hs *serverHandshakeState)                                 {}
+func verifPreClientFlight(hs *serverHandshakeStateTLS13) error             { return nil }
+func verifEmit(c *Conn, ev string, data []byte)                            {}
+func verifSuite12(hs *serverHandshakeState, s *cipherSuite) *cipherSuite   { return s }
+func verifGroup12(config *Config, g CurveID) CurveID                       { return g }
+func verifECDHPart(hs *serverHandshakeStateTLS13, g CurveID, data []byte) (CurveID, []byte) {
+	return g, data
+}
 func verifHybridPart(hs *serverHandshakeStateTLS13, g CurveID, clientShare []byte) error { return nil }
-func verifTicketNonce(c *Conn, suite *cipherSuiteTLS13, m *newSessionTicketMsgTLS13, psk []byte) []byte { return psk }
+func verifTicketNonce(c *Conn, suite *cipherSuiteTLS13, m *newSessionTicketMsgTLS13, psk []byte) []byte {
+	return psk
+}
